@@ -26,6 +26,10 @@ fn acov_exact(x: &[i128], k: usize) -> Rat {
 }
 
 fn acf_suite(run: &Run, xi: &[i128], shift: f64) {
+    acf_lags(run, xi, shift, xi.len() as i32 + 1)
+}
+
+fn acf_lags(run: &Run, xi: &[i128], shift: f64, maxlag: i32) {
     let n = xi.len();
     let x: Vec<f64> = xi.iter().map(|&v| v as f64 + shift).collect();
     let c0 = acov_exact(xi, 0);
@@ -34,7 +38,7 @@ fn acf_suite(run: &Run, xi: &[i128], shift: f64) {
     let mean = x.iter().sum::<f64>() / n as f64;
     let tol_cov = 16.0 * n as f64 * U * (var + mean.abs() * range + range * range) + 1e-300;
     let cls = if shift == 0.0 { "no-offset" } else { "offset" };
-    for k in -(n as i32 + 1)..=(n as i32 + 1) {
+    for k in -maxlag..=maxlag {
         run.case();
         run.trs(2);
         run.ok();
@@ -280,6 +284,15 @@ pub fn run(run: &Run) {
                 Err(p) => run.violate("difference/panic", || format!("{:?}: {}", cs, p)),
             }
         });
+    }
+    // longer integer series, lags -50..=50 (the property's lag range), with offsets
+    for &len in &[60usize, 200, 1000] {
+        for seed in 0..3u64 {
+            let xi: Vec<i128> = synth(len, &[0.6, -0.3], seed + 3).iter().map(|v| *v as i128).collect();
+            for shift in [0.0, 1e3, 1e6] {
+                acf_lags(run, &xi, shift, 50);
+            }
+        }
     }
     run.sample(|| "x=[1001,1000,1002,999] (letters shifted by 1e3), lags -5..=5: acovf, acf vs exact rationals; evenness; acf(0)=1".to_string());
     // AR on every short series
